@@ -943,6 +943,19 @@ def headDisplay : List V → TStr
   | v :: _ => v.display
   | [] => []
 
+/-- contrib `random`: one element of a sequence, or one character of a string — the character of a
+    `Safe` string keeps the bit; `k` = the index the random generator picked -/
+def randomF (k : Nat) : Fn
+  | [.str s safe] => some (match s[k]? with | some c => .str [c] safe | Option.none => .undef)
+  | [.seq xs] => some (xs[k]?.getD .undef)
+  | _ => Option.none
+
+/-- contrib `lipsum(…, html=b)`: text assembled from a constant word list and `<p>` tags, marked safe
+    when `html=true`.  No argument flows into the text, so every character is engine text; `cps` =
+    the code points the engine produced (the words are drawn at random) -/
+def lipsumF (html : Bool) (cps : List Nat) : Fn :=
+  fun _ => some (.str (ofTmpl (String.ofList (cps.map Char.ofNat))) html)
+
 /-! ### names: the operators/filters the driver can run.  The flag says whether the construct
 belongs to the safe-marking-free fragment of the property (`safe` and `tojson` do not). -/
 
@@ -999,6 +1012,8 @@ def lookupBase (name : String) (m : Mode) (ps : List Nat) : Option (Fn × Bool) 
   | "dict.keys" => some (charsF, true)
   | "dict.values" => some (dictValuesF, true)
   | "dict.get" => some (dictGetF, true)
+  | "random" => some (randomF (ps.headD 0), true)
+  | "lipsum" => some (lipsumF (ps.headD 0 != 0) (ps.drop 1), true)
   | "safe" => some (safeF, false)
   | "tojson" => some (tojsonF, false)
   | _ => Option.none
@@ -1037,7 +1052,8 @@ def classOf : String → Option Class
   | "str.upper" | "str.lower" | "str.title" | "str.strip" | "str.lstrip" | "str.rstrip" | "str.replace"
   | "str.join" | "str.splitlines" | "str.capitalize" | "str.split"
   | "dict.items" | "dict.keys" | "dict.values" | "dict.get"
-  | "attr" | "batch" | "sort" | "unique" | "min" | "max" | "select" | "reject" | "dictsort" => some .modelled
+  | "attr" | "batch" | "sort" | "unique" | "min" | "max" | "select" | "reject" | "dictsort"
+  | "random" | "lipsum" => some .modelled
   | "slice" | "selectattr" | "rejectattr" | "groupby" | "chain" | "zip" | "cycler" | "namespace" => some .select
   | "pluralize" | "joiner" | "range" | "dict" => some .forward
   | "abs" | "bool" | "float" | "int" | "round" | "sum" | "pprint" | "urlencode" | "striptags"
@@ -1047,8 +1063,7 @@ def classOf : String → Option Class
   | "str.isalpha" | "str.isascii" | "str.count" | "str.find" | "str.rfind" | "str.format"
   | "str.startswith" | "str.endswith" | "list.count" => some .normal
   | "map" => some .mapped
-  | "random" => some .pieces
-  | "safe" | "tojson" | "lipsum" => some .markup
+  | "safe" | "tojson" => some .markup
   | _ => Option.none
 
 /-- program points that construct a `Safe` string and where the model accounts for them -/
@@ -1073,8 +1088,8 @@ def modelledSafeSites : List (String × String) := [
   ("minijinja/src/filters.rs::tojson::markx1", "tojsonF (outside the fragment)"),
   ("minijinja/src/filters.rs::format::markx1", "formatF"),
   ("minijinja-contrib/src/filters/mod.rs::truncate::markx1", "truncateF"),
-  ("minijinja-contrib/src/filters/mod.rs::random::markx1", "one element of a safe string keeps the bit: class pieces"),
-  ("minijinja-contrib/src/globals.rs::lipsum::markx1", "`html=true` is documented to return markup: class markup")]
+  ("minijinja-contrib/src/filters/mod.rs::random::markx1", "randomF: one character of a safe string keeps the bit"),
+  ("minijinja-contrib/src/globals.rs::lipsum::markx1", "lipsumF: constant words and <p> tags, no argument flows into the text")]
 
 /-- program points that read the `Safe` bit and where the model accounts for them -/
 def modelledReaderSites : List (String × String) := [
@@ -1091,7 +1106,54 @@ def modelledReaderSites : List (String × String) := [
   ("minijinja/src/filters.rs::last::readx1", "lastF"),
   ("minijinja/src/filters.rs::format::readx2", "formatF"),
   ("minijinja-contrib/src/filters/mod.rs::truncate::readx4", "truncateF"),
-  ("minijinja-contrib/src/filters/mod.rs::random::readx1", "class pieces")]
+  ("minijinja-contrib/src/filters/mod.rs::random::readx1", "randomF")]
+
+/-! ### the complete table of registered callables (`Gen.c02Callables`, regenerated from
+`defaults.rs`, contrib `lib.rs`, `pycompat.rs` with the signature and body facts of each) -/
+
+/-- the callable can construct a `Safe` string: its body calls `preserve_safety`, constructs one
+    (`from_safe_string` / `StringType::Safe`), or calls another registered implementation that does -/
+def canProduceSafe (c : Gen.C02Callable) : Bool := c.preserve || c.mark || !c.via.isEmpty
+
+/-- exact model (name in `lookupBase`) of every registered callable that can construct a `Safe` string -/
+def producerModel (kind name : String) : Option String :=
+  if kind == "test" then Option.none else
+  match name with
+  | "escape" | "e" => some "escape"
+  | "safe" => some "safe"
+  | "tojson" => some "tojson"
+  | "upper" => some "upper"
+  | "lower" => some "lower"
+  | "capitalize" => some "capitalize"
+  | "trim" => some "trim"
+  | "indent" => some "indent"
+  | "replace" => some "replace"
+  | "reverse" => some "reverse"
+  | "join" => some "join"
+  | "split" => some "split"
+  | "lines" => some "lines"
+  | "last" => some "last"
+  | "format" => some "format"
+  | "truncate" => some "truncate"
+  | "random" => some "random"
+  | "lipsum" => some "lipsum"
+  | "str.capitalize" => some "str.capitalize"
+  | "str.split" => some "str.split"
+  | _ => Option.none
+
+/-- return types whose conversion into a `Value` cannot carry the `Safe` bit (`Value::from(String)`
+    builds `StringType::Normal`: `Gen.c02FromStringIsNormal`) -/
+def retScalar (r : String) : Bool :=
+  ["String", "bool", "usize", "i64", "Result<String, Error>", "Result<usize, Error>", "Result<bool, Error>"].contains r
+
+/-- return types that can hold an argument value unchanged -/
+def retValue (r : String) : Bool :=
+  ["Value", "Result<Value, Error>", "Result<Vec<Value>, Error>"].contains r
+
+/-- program points that mark strings and are not the body of a registered callable: the primitives -/
+def corePrimitiveSites : List (String × String) := [
+  ("minijinja/src/value/mod.rs", "from_safe_string"), ("minijinja/src/value/argtypes.rs", "preserve_safety"),
+  ("minijinja/src/output.rs", "end_capture"), ("minijinja/src/vm/macro_object.rs", "call")]
 
 /-! ## the machine: registers, capture stack, output -/
 
